@@ -137,7 +137,7 @@ def run(ctx):
     cdir = os.path.join(os.path.dirname(os.path.dirname(os.path.abspath(__file__))), "harness", "corpus", ctx.pid)
     if os.path.isdir(cdir):
         for f in sorted(os.listdir(cdir)):
-            if f.endswith(".ops") and ".invalid." not in f and not f.startswith(("vhosts.", "rds.")):
+            if f.endswith(".ops") and ".invalid." not in f and not f.startswith(("vhosts.", "rds.", "known-rds.")):
                 rc, out = ctx.harness("validate", os.path.join(cdir, f))
                 last = out.strip().split("\n")[-1] if out.strip() else ""
                 if rc != 0 or not last.endswith("invalid 0"):
@@ -147,6 +147,10 @@ def run(ctx):
     if HAVE_VHOSTS:
         ctx.diff_stream("vhosts", ctx.n(4000, 40000), oracle=oracle, nontrivial=nontrivial)
         ctx.diff_stream("rds", ctx.n(1500, 20000), oracle=oracle, nontrivial=nontrivial)
+    # witnesses of the known findings (corpus only): each must still reproduce, as KNOWN-FINDING
+    ctx.diff_stream("known-requests", 0, oracle=oracle, nontrivial=nontrivial)
+    if HAVE_VHOSTS:
+        ctx.diff_stream("known-rds", 0, oracle=oracle, nontrivial=nontrivial)
     # second line: the property oracle on every generated case, independent of the Lean model
     for stream in STREAMS:
         g = os.path.join(ctx.work, "%s.gen.ops" % stream)
